@@ -20,7 +20,7 @@ fn pool_sources() -> Vec<&'static str> {
         "0.1 + 0.2", "0.3", "3",
         // strings
         "\"\"", "\"a\"", "\"ab\"", "\"abc\"", "\"abd\"", "\"b\"", "\"B\"", "\"é\"", "\"e\"", "\"z\"", "\"日本\"", "\"😀\"", "\"a\" + \"b\"",
-        "\"10\"", "\"9\"",
+        "\"10\"", "\"9\"", "\"\u{ff5e}\"", "\"\u{e000}x\"", "\"😀x\"", "\"\u{fffd}\"",
         // booleans, null
         "true", "false", "null", "1 == 1",
         // lists
